@@ -16,10 +16,17 @@ import (
 const e2eAddr = "127.0.0.1:6379"
 
 func e2eClient(store string) (rueidis.Client, *fakeredis.Server, error) {
+	return e2eClientMux(store, 0)
+}
+
+// multiplex: ClientOption.PipelineMultiplex (0: the default of 4 connections, each with its own cache store, commands
+// spread by key slot; -1: one connection)
+func e2eClientMux(store string, multiplex int) (rueidis.Client, *fakeredis.Server, error) {
 	s := fakeredis.NewServer("e2e-"+store, fakeredis.Options{})
 	n := fakeredis.NewNetwork()
 	n.Add(e2eAddr, s)
-	opt := rueidis.ClientOption{InitAddress: []string{e2eAddr}, DialCtxFn: n.DialCtxFn(), ForceSingleClient: true, DisableRetry: true}
+	opt := rueidis.ClientOption{InitAddress: []string{e2eAddr}, DialCtxFn: n.DialCtxFn(), ForceSingleClient: true, DisableRetry: true,
+		PipelineMultiplex: multiplex}
 	if store == "adapter" {
 		opt.NewCacheStoreFn = func(rueidis.CacheStoreOption) rueidis.CacheStore {
 			return rueidis.NewSimpleCacheAdapter(newMapCache())
@@ -35,6 +42,9 @@ type e2eParams struct {
 	srvP   int64 // ms, -1: no server expiry
 	exists bool
 	static bool
+	shape  string // see shapes.go
+	mode   string // "rt": the server key really expires (real clock); "scripted": the PTTL answers are scripted (fill.go)
+	srv    string // scripted mode: the server key state of CacheFill.tla ("rt" otherwise)
 }
 
 type e2eObs struct {
@@ -90,7 +100,7 @@ func e2eRecord(base int64, store, kind string, multi string, p e2eParams, pop po
 	if kind == "pop" {
 		pop.pxat = pxat
 	}
-	return map[string]any{"kind": kind, "store": store, "multi": multi, "static": p.static, "key": p.key, "ttl": p.ttl, "srvP": p.srvP,
+	return map[string]any{"kind": kind, "store": store, "multi": multi, "static": p.static, "key": p.key, "mode": p.mode, "shape": p.shape, "srv": p.srv, "ttl": p.ttl, "srvP": p.srvP,
 		"exists": p.exists, "popNil": pop.popNil, "tsetA": pop.tsetA, "tsetB": pop.tsetB, "ptcall": pop.tcall, "ptret": pop.tret, "ppxat": pop.pxat,
 		"tcall": tcall, "tret": tret, "hit": r.IsCacheHit(), "pxat": pxat, "pttl": pttl, "ttls": ttls, "ta": ta, "tb": tb, "tc": tc, "td": td}
 }
@@ -109,8 +119,12 @@ func e2eMode(rep *vh.Report) {
 			rep.Inconcl("e2e: NewClient(%s): %v", store, err)
 			continue
 		}
+		if err := shapeServer(srv); err != nil {
+			rep.Inconcl("e2e: %v", err)
+			continue
+		}
 		build := func(p e2eParams) rueidis.Cacheable {
-			c := client.B().Get().Key(p.key).Cache()
+			c := shapeCmd(client, p.shape, p.key)
 			if p.static {
 				c = c.ToStaticTTL()
 			}
@@ -119,11 +133,7 @@ func e2eMode(rep *vh.Report) {
 		prepare := func(p e2eParams) (a, b int64) {
 			a = ms()
 			if p.exists {
-				if p.srvP > 0 {
-					srv.Do("SET", p.key, "v-"+p.key, "PX", fmt.Sprint(p.srvP))
-				} else {
-					srv.Do("SET", p.key, "v-"+p.key)
-				}
+				shapeStore(srv, p.shape, p.key, "v-"+p.key, p.srvP)
 			}
 			return a, ms()
 		}
@@ -137,7 +147,11 @@ func e2eMode(rep *vh.Report) {
 				defer wg.Done()
 				defer func() { <-sem }()
 				mk := func(j int) e2eParams {
-					p := e2eParams{key: fmt.Sprintf("%s-%d-%d-%d", store, vh.Seed(), i, j), ttl: int64(100 + rng.Intn(301)), srvP: -1, exists: true}
+					p := e2eParams{key: fmt.Sprintf("%s-%d-%d-%d", store, vh.Seed(), i, j), ttl: int64(100 + rng.Intn(301)), srvP: -1, exists: true,
+						mode: "rt", srv: "rt", shape: "get"}
+					if rng.Intn(2) == 0 { // half of the commands are not plain GETs: the key is not always the first argument
+						p.shape = e2eShapes[rng.Intn(len(e2eShapes))]
+					}
 					switch rng.Intn(6) {
 					case 0: // key without expiry
 					case 1: // missing key: nil reply, PTTL -2
@@ -162,6 +176,7 @@ func e2eMode(rep *vh.Report) {
 				if multi == "mget" { // one client ttl for the command; static TTL does not apply to MGET
 					ps[1].ttl = ps[0].ttl
 					ps[0].static, ps[1].static = false, false
+					ps[0].shape, ps[1].shape = "mgetkey", "mgetkey"
 				}
 				pops := make([]popInfo, len(ps))
 				for j, p := range ps {
